@@ -75,7 +75,8 @@ func (sourcelocEngine) Exec(op string) string {
 		if !ok || off < 0 || off > len(text) {
 			return "bad-op"
 		}
-		return strconv.Itoa(source.NewFile("x", text).LineByOffset(off))
+		f := source.NewFile("x", text)
+		return ConcFirst(slConc, func() string { return strconv.Itoa(f.LineByOffset(off)) })
 	case "lo":
 		if len(w) != 3 {
 			return "bad-op"
@@ -85,8 +86,10 @@ func (sourcelocEngine) Exec(op string) string {
 		if !ok || line < 1 || line > len(source.VerifLines(f)) {
 			return "bad-op"
 		}
-		s, e := f.LineOffsets(line)
-		return fmt.Sprintf("%d %d", s, e)
+		return ConcFirst(slConc, func() string {
+			s, e := f.LineOffsets(line)
+			return fmt.Sprintf("%d %d", s, e)
+		})
 	case "loc", "rloc", "rt":
 		if len(w) != 4 {
 			return "bad-op"
@@ -100,11 +103,13 @@ func (sourcelocEngine) Exec(op string) string {
 		f := source.NewFile("x", text)
 		switch w[0] {
 		case "loc":
-			l := f.Location(off, u)
-			if l.Offset != off {
-				return fmt.Sprintf("offset-field %d", l.Offset)
-			}
-			return fmt.Sprintf("%d %d", l.Line, l.Column)
+			return ConcFirst(slConc, func() string {
+				l := f.Location(off, u)
+				if l.Offset != off {
+					return fmt.Sprintf("offset-field %d", l.Offset)
+				}
+				return fmt.Sprintf("%d %d", l.Line, l.Column)
+			})
 		case "rloc":
 			l := source.VerifLocation(f, off, u)
 			if l.Offset != off {
@@ -112,12 +117,14 @@ func (sourcelocEngine) Exec(op string) string {
 			}
 			return fmt.Sprintf("%d %d", l.Line, l.Column)
 		default:
-			l := f.Location(off, u)
-			i := f.InverseLocation(l.Line, l.Column, u)
-			if i.Line != l.Line || i.Column != l.Column {
-				return fmt.Sprintf("linecol-fields %d %d", i.Line, i.Column)
-			}
-			return fmt.Sprintf("%d %d %d", l.Line, l.Column, i.Offset)
+			return ConcFirst(slConc, func() string {
+				l := f.Location(off, u)
+				i := f.InverseLocation(l.Line, l.Column, u)
+				if i.Line != l.Line || i.Column != l.Column {
+					return fmt.Sprintf("linecol-fields %d %d", i.Line, i.Column)
+				}
+				return fmt.Sprintf("%d %d %d", l.Line, l.Column, i.Offset)
+			})
 		}
 	case "inv", "rinv":
 		if len(w) != 5 {
@@ -158,6 +165,10 @@ func (sourcelocEngine) Class(op, ans string) string {
 }
 
 var slUnits = []string{"bytes", "utf16", "runes"}
+
+// slConc: a fresh File's first lookup is made by this many goroutines at once (the line table is
+// built lazily behind read-only looking methods).
+const slConc = 4
 
 // slBoundaries returns the rune-start offsets of text (Go decoding: an
 // ill-formed byte is a one-byte character) plus len(text).
